@@ -599,6 +599,21 @@ theorem b3_two_field_header_presents (th sh tid sid smp : Bytes) (h1 : AllHex th
 /-- … and so are multi headers without `X-B3-Sampled` -/
 theorem b3_multi_without_sampled_presents (th sh : Bytes) : B3Presents [] th sh [] th sh [] := Or.inl ⟨rfl, rfl, rfl, rfl⟩
 
+/-- Jaeger: **an empty flags field means not sampled** (`{trace-id}:{span-id}:{parent}:`), and in general the decision
+    is bit 0 of the flags value, whatever the other bits (debug, firehose) are -/
+theorem jaeger_missing_flags_unsampled {h th sh ph : Bytes} (hp : JaegerPresents h th sh ph [])
+    (ht : AllHex th) (hs : AllHex sh) (lt : th.length ≤ 32) (ls : sh.length ≤ 16)
+    (nt : NonZero (decodeHexAny th)) (ns : NonZero (decodeHexAny sh)) :
+    ∃ sc, Jaeger.extract h = .ok (some sc) ∧ sc.flags = 0 ∧ ¬ Sampled sc.flags :=
+  ⟨_, jaeger_accepts hp ht hs (fun _ hc => by simp at hc) lt ls (by simp) nt ns, rfl, by show ¬ Sampled (0 : UInt8); decide⟩
+
+theorem jaeger_sampling_decision (th sh fh : Bytes) :
+    ((jaegerCtx th sh fh).flags = 1 ↔ Sampled ((decodeHexAny fh).headD 0)) ∧
+    ((jaegerCtx th sh fh).flags = 0 ↔ ¬ Sampled ((decodeHexAny fh).headD 0)) := by
+  show (sampledBit _ = 1 ↔ _) ∧ (sampledBit _ = 0 ↔ _)
+  unfold sampledBit
+  by_cases h : Sampled ((decodeHexAny fh).headD 0) <;> simp [h]
+
 /-- **a non-empty `b3` header takes precedence over the `X-B3-*` headers**: they are not even looked at -/
 theorem b3_single_precedes_multi (b3 : Bytes) (hne : b3 ≠ []) (tid sid smp tid' sid' smp' : Bytes) :
     B3.extract b3 tid sid smp = B3.extract b3 tid' sid' smp' := by
